@@ -30,3 +30,12 @@ mut("c01-extrcode-shift", "C01", "edns.go", "rr.Hdr.Ttl = rr.Hdr.Ttl&0x00FFFFFF 
 mut("c01-nsec3-salt-len", "C01", "msg_helpers.go", "		if length > 32 {\n			return nsec, len(msg), &Error{err: \"NSEC(3) block too long in type bitmap\"}", "		if length > 31 {\n			return nsec, len(msg), &Error{err: \"NSEC(3) block too long in type bitmap\"}", "type bitmap window of 32 octets rejected")
 mut("c01-svcb-mandatory-order", "C01", "svcb.go", "		binary.BigEndian.PutUint16(b[2*i:], uint16(e))\n	}\n	return b, nil\n}\n\nfunc (s *SVCBMandatory) unpack", "		binary.LittleEndian.PutUint16(b[2*i:], uint16(e))\n	}\n	return b, nil\n}\n\nfunc (s *SVCBMandatory) unpack", "SVCB mandatory keys written little endian")
 mut("c01-edns-ul-keylease", "C01", "edns.go", "		binary.BigEndian.PutUint32(b[4:], e.KeyLease)\n	}\n	binary.BigEndian.PutUint32(b, e.Lease)", "		binary.BigEndian.PutUint32(b[4:], e.Lease)\n	}\n	binary.BigEndian.PutUint32(b, e.Lease)", "EDNS0 UL key lease overwritten by lease")
+
+# ---- C04
+mut2("c04-compression-key-lowercase", "C04", [
+    ("msg.go", "func (m compressionMap) find(s string) (int, bool) {", "func (m compressionMap) find(s string) (int, bool) {\n	s = strings.ToLower(s)"),
+    ("msg.go", "func (m compressionMap) insert(s string, pos int) {", "func (m compressionMap) insert(s string, pos int) {\n	s = strings.ToLower(s)"),
+], "compression map keyed case-insensitively: Example. is emitted as a pointer to example. (still decodes, case lost)")
+mut("c04-offset-limit-le", "C04", "msg.go", "				} else if off < maxCompressionOffset {", "				} else if off <= maxCompressionOffset {", "a name starting exactly at offset 16384 becomes a pointer target")
+mut("c04-srv-target-compressed", "C04", "zmsg.go", "	off, err = packUint16(rr.Port, msg, off)\n	if err != nil {\n		return off, err\n	}\n	off, err = packDomainName(rr.Target, msg, off, compression, false)", "	off, err = packUint16(rr.Port, msg, off)\n	if err != nil {\n		return off, err\n	}\n	off, err = packDomainName(rr.Target, msg, off, compression, compress)", "SRV target compressed on output (RFC 3597 forbids)")
+mut("c04-compbegin-ignores-escapes", "C04", "msg.go", "			compBegin = begin + compOff", "			compBegin = begin", "compression key offset ignores escape lengths")
